@@ -127,13 +127,24 @@ class QueryPlanner:
         #   main purpose: make tests working (don't change planner outputs)
         # can be removed in future (with adapting the tests) except 'cut integration part' block
 
+        # table aliases of the query: `alias.column` must stay as it is, also when the alias is spelled like the database
+        table_aliases = set()
+
+        def _find_table_aliases(node, is_table, **kwargs):
+            if is_table and getattr(node, 'alias', None) is not None:
+                table_aliases.add(node.alias.parts[-1])
+
+        query_traversal(query, _find_table_aliases)
+
         def _prepare_integration_select(node, is_table, is_target, parent_query, **kwargs):
             if not isinstance(node, Identifier):
                 return
 
             # cut integration part
             if len(node.parts) > 1 and node.parts[0].lower() == database:
-                node.parts.pop(0)
+                is_alias_reference = not is_table and len(node.parts) == 2 and node.parts[0] in table_aliases
+                if not is_alias_reference:
+                    node.parts.pop(0)
 
             if not hasattr(parent_query, 'from_table'):
                 return
